@@ -74,11 +74,16 @@ class Host:
             labs = pool[:total]
             if kind == "repeat" and total >= 2:
                 labs[-1] = labs[0]
+            if kind == "dup-outputs":
+                outs = [rnd.choice(list(self.c.gates)) for _ in range(2)]
+                self.c.set_outputs([outs[0], outs[1], outs[0]])
         self.operands = []
         k = 0
         for w in widths:
             self.operands.append(labs[k:k + w])
             k += w
+        if kind == "repeat2" and len(widths) >= 2 and widths[0] == widths[1]:
+            self.operands[1] = list(self.operands[0])  # the same gates as both operands
         self.before_net = circ.netlist_of(self.c)
         self.before_inputs = list(self.c.inputs)
         self.before_outputs = list(self.c.outputs)
@@ -175,3 +180,18 @@ def concrete_values(c, assign, labels):
     res = c.evaluate_circuit(dict(assign), outputs=[l for l in labels if l not in assign])
     res.update(assign)
     return {l: res[l] for l in labels}
+
+
+class OperandLists:
+    """Operand label lists handed to a generator as real `list` objects (optionally the *same*
+    object for two operands).  A generator must not modify its caller's lists."""
+
+    def __init__(self, operands, alias=False):
+        self.lists = [list(o) for o in operands]
+        if alias and len(self.lists) >= 2 and self.lists[0] == self.lists[1]:
+            self.lists[1] = self.lists[0]
+        self.before = [list(x) for x in self.lists]
+
+    def check(self):
+        if [list(x) for x in self.lists] != self.before:
+            raise AssertionError("the generator modified its caller's operand list(s)")
